@@ -179,7 +179,7 @@ pub fn install_signal_handlers() {
             libc::SIGALRM,
         ] {
             let mut sa: libc::sigaction = std::mem::zeroed();
-            sa.sa_sigaction = on_fatal as usize;
+            sa.sa_sigaction = on_fatal as *const () as usize;
             sa.sa_flags = libc::SA_ONSTACK;
             libc::sigemptyset(&mut sa.sa_mask);
             libc::sigaction(sig, &sa, std::ptr::null_mut());
